@@ -921,8 +921,13 @@ def gen_pair(rng):
             v.bad(fam + "/no-output", "no final table")
             return v
         p = parse_table(text)
-        if p.malformed or len(p.x) != n:
-            v.count("pair_dontcare_resample_grid_differs")
+        if p.malformed or len(p.x) != n or any(
+                abs(num(p.x[i]) - xv[i]) > 1e-9 * (1 + abs(xv[i])) for i in range(n)):
+            # "return tables on the same grid": never observed on the unchanged
+            # tree over 16000 thorough cases, so it is judged
+            v.bad("pair/grid-differs", "integration + differentiation through "
+                  "csg_resample does not return a table on the input grid",
+                  rows_got=len(p.x), rows_expected=n, grid=grid)
             return v
         worst = 0.0
         if order == "integrate_then_derive":
